@@ -24,7 +24,7 @@ ASSUMPTIONS = ['from depth 2 on an event must involve the newest object or be an
 
 def BOUNDS(tier):
     return {'depth': 2 if tier == 'quick' else 3, 'initial_pools': explore.NPOOLS, 'pool_cap': explore.MAXPOOL,
-            'events': sorted(explore.EVBYNAME), 'slow_events_included': 'depth 1 always; deeper levels in the thorough tier', 'merged_depth': None if tier == 'quick' else '4 (pools 1 and 2, merging from depth 2 per shard)'}
+            'events': sorted(explore.EVBYNAME), 'slow_events_included': 'depth 1 always; deeper levels in the thorough tier', 'merged_depth': None if tier == 'quick' else '4 (pool 2: order-1 objects, merging from depth 2 per shard)'}
 
 
 def cases(tier, seed):
@@ -35,7 +35,7 @@ def cases(tier, seed):
             yield {'pid': pid, 'first': i, 'depth': 2 if tier == 'quick' else 3, 'slow': False}
     if tier == 'thorough':
         # depth 4 with merging of equal canonical states (per shard), on the two smallest pools
-        for pid in (1, 2):
+        for pid in (2,):
             n = explore.root_event_count(pid)
             for i in range(n):
                 yield {'pid': pid, 'first': i, 'depth': 4, 'slow': False, 'merge': 2}
